@@ -25,6 +25,13 @@ EndStep ==
   /\ calls' = <<>>
   /\ UNCHANGED state
 
+(* `current_state` is a public field: between sweeps the user may put the chain *)
+(* anywhere; the next sweep shows the conditional THAT state.                    *)
+Assign(s) ==
+  /\ next = 1 /\ Len(s) = Len(state)
+  /\ state' = s
+  /\ UNCHANGED <<next, calls>>
+
 (* every coordinate exactly once, in order, each time on the freshest state *)
 CallOrder == \A k \in 1..Len(calls) : calls[k][1] = k
 OnlyOwnCoordinate ==
